@@ -53,6 +53,7 @@ def run(tier, seed):
         pack.extra['models'] = len(bundles)
         from contracts import C02_binding
         C02_binding.add_obligations(pack, ss, tier)
+        C02_binding.bounded_overwrite(pack, ss, d)
     finally:
         shutil.rmtree(d, ignore_errors=True)
     return pack.finish()
